@@ -6,6 +6,7 @@ from extract import lifecycle_gen as lg
 from extract import skeleton as sk
 from extract import diag
 from props import _menu
+from props import _guided
 from props.c02 import SetattrTrace
 
 ID = "C03"
@@ -17,8 +18,8 @@ TRUSTED = [
     "harness/extract/skeleton.py + lifecycle_gen.py: translation of `fit` and of the observers into the IR, "
     "specialisation by the hyper-parameter conditions (at most 4 per class), the table of attributes an external "
     "(scikit-learn) parent's fit rewrites",
-    "histories are fits and observer calls under CONSTANT hyper-parameters (the property's quantifier); attributes "
-    "no method writes under a valuation cannot be stale (theorem `frame`)",
+    "hyper-parameters may change between two fits (set_params): an attribute is possibly stale when ANY valuation of "
+    "the hyper-parameter conditions writes it; attributes no method writes cannot be stale (theorem `frame`)",
     "inner scikit-learn estimators are cloned or refitted from scratch by their own fit (warm_start etc. outside "
     "the model); numpy RandomState(seed) is a function of the seed",
 ]
@@ -103,6 +104,54 @@ def observe_all(est, e, X, y, seed):
     return outs
 
 
+_SKIP_AUTO = ("fit", "set_", "get_params", "get_metadata", "partial_fit")
+_UNI = {}
+
+
+def _fit_steps(clsname):
+    """public methods that `fit` itself calls on self (steps of the fit, not observers) - read from the source"""
+    import shadow
+    if "uni" not in _UNI:
+        _UNI["uni"] = sk.Universe(shadow.REPO)
+    key = ("steps", clsname)
+    if key not in _UNI:
+        try:
+            _UNI[key] = lg.fit_steps(_UNI["uni"], clsname)
+        except Exception:  # noqa: BLE001
+            _UNI[key] = set()
+    return _UNI[key]
+
+
+def auto_observe(est, e, X, y, seed):
+    """Every OTHER public method mlinsights defines for the class (beyond the menu's observers) that can be called as
+    m(), m(X) or m(X, y): outcome = structural value or exception type.  Used after a change of hyper-parameters,
+    where an attribute written only under the former configuration may still be read by such a method."""
+    import inspect
+    import numpy
+    outs = []
+    known = {o[:-3] if o.endswith("_xy") else o for o in e.observers}
+    for name in sorted(dir(type(est))):
+        if name.startswith("_") or name.startswith(_SKIP_AUTO) or name in known or name in _fit_steps(type(est).__name__):
+            continue
+        f = getattr(type(est), name, None)
+        if not inspect.isfunction(f) or not (getattr(f, "__module__", "") or "").startswith("mlinsights"):
+            continue
+        try:
+            req = [p for p in list(inspect.signature(f).parameters.values())[1:]
+                   if p.default is inspect.Parameter.empty and p.kind in (p.POSITIONAL_ONLY, p.POSITIONAL_OR_KEYWORD)]
+        except (TypeError, ValueError):
+            continue
+        if len(req) > 2 or (len(req) == 2 and y is None):
+            continue
+        args = [X, y][:len(req)]
+        numpy.random.seed(seed)
+        try:
+            outs.append(("auto:" + name, _canon(getattr(est, name)(*args), 0)))
+        except Exception as ex:  # noqa: BLE001
+            outs.append(("auto:" + name, ("raises", type(ex).__name__)))
+    return outs
+
+
 def unseen_query(e, X, y):
     """a query batch that reaches lazily computed state (labels unseen at training time)"""
     if e.data == "labels" and y is not None:
@@ -110,13 +159,23 @@ def unseen_query(e, X, y):
     return X, y
 
 
-def history(e, variants, seed, dseed, between=True):
-    """fit(A); observers(A); fit(B); observers(B)  vs  fresh: fit(B); observers(B)"""
+def history(e, variants, seed, dseed, between=True, failing=None):
+    """fit(A); observers(A); fit(B); observers(B)  vs  fresh: fit(B); observers(B).
+    `failing`: a kind of invalid data (props.c02.corrupt): a fit on the corrupted A is attempted before every fit - an
+    earlier fit that FAILED is an earlier fit too, nothing it left behind may leak."""
     import numpy
+    from props import c02
     rng = random.Random(dseed)
     datas = [_menu.make_data(e.data, rng, v) for v in variants]
     est = e.factory()
     for i, (X, y, w) in enumerate(datas):
+        if failing:
+            try:
+                Xb, yb, wb = c02.corrupt(failing, *datas[0])
+                numpy.random.seed(seed + 50 + i)
+                _menu.call_fit(est, Xb, yb, wb)
+            except Exception:  # noqa: BLE001
+                pass
         numpy.random.seed(seed + i)
         _menu.call_fit(est, X, y, w)
         if between or i == len(datas) - 1:
@@ -185,11 +244,11 @@ def reconfigured(e1, e2, seed, dseed):
     est.set_params(**target.get_params(deep=False))
     numpy.random.seed(seed + 1)
     _menu.call_fit(est, XB, yB, wB)
-    last = observe_all(est, e2, XB, yB, seed + 100)
+    last = observe_all(est, e2, XB, yB, seed + 100) + auto_observe(est, e2, XB, yB, seed + 102)
     fresh = e2.factory()
     numpy.random.seed(seed + 1)
     _menu.call_fit(fresh, XB, yB, wB)
-    ref = observe_all(fresh, e2, XB, yB, seed + 100)
+    ref = observe_all(fresh, e2, XB, yB, seed + 100) + auto_observe(fresh, e2, XB, yB, seed + 102)
     return est, fresh, last, ref
 
 
@@ -312,6 +371,53 @@ SEEDED = ("KMeansL1L2[L1]", "KMeansL1L2[L2]", "KMeansL1L2[L1,init-array]",
           "PiecewiseClassifier[random_state=0]")
 
 
+OPT_OUT_PARAMS = ("copy_x", "copy_X", "copy", "verbose")
+
+
+def state_stability(e, seed, dseed, variant=0):
+    """Using a fitted model does not change it: every fitted attribute present after `fit` holds the same value
+    after every public method has been called (attributes created lazily by an observer are not concerned)."""
+    import numpy
+    X, y, w = _menu.make_data(e.data, random.Random(dseed), variant)
+    est = e.factory()
+    numpy.random.seed(seed)
+    _menu.call_fit(est, X, y, w)
+    before = fitted_state(est)
+    observe_all(est, e, X, y, seed + 100)
+    auto_observe(est, e, X, y, seed + 102)
+    Xq, yq = unseen_query(e, X, y)
+    observe_all(est, e, Xq, yq, seed + 101)
+    after = fitted_state(est)
+    changed = sorted(k for k in before if k in after and before[k] != after[k])
+    gone = sorted(k for k in before if k not in after)
+    if changed or gone:
+        return [("%s:state-changed-by-observers:%s" % (e.cls, ",".join(changed + gone)),
+                 "fitted attributes hold other values after the public methods of the fitted model were called",
+                 {"changed": changed, "removed": gone}, "what fit stored is left untouched by predict/transform/score/...")]
+    return []
+
+
+def failed_history_raises(e, seed, dseed, kind, ex):
+    """the history with failing fits in between raised: a violation when the same history WITHOUT them does not"""
+    try:
+        history(e, (0, 1), seed, dseed)
+    except Exception:  # noqa: BLE001
+        return []
+    return [("%s:refit-after-failed-fit:raises" % e.cls,
+             "a valid fit (or an observer) raises %s after an earlier fit failed on invalid data (%s); the same history "
+             "without the failed fits succeeds" % (type(ex).__name__, kind), "%s: %s" % (type(ex).__name__, str(ex)[:150]),
+             "the model a fresh instance fitted on the same data gives")]
+
+
+def derived(e, ov):
+    """menu entry `e` with the hyper-parameters `ov` (values the current source compares them with) set"""
+    def fac(inner=None, _e=e, _ov=ov):
+        est = _e.factory(inner) if inner is not None else _e.factory()
+        est.set_params(**_ov)
+        return est
+    return _menu.Entry(e.name, e.cls, fac, e.data, e.observers, e.inner_kind, e.slow, e.seeded)
+
+
 def search(ctx, hints):
     ctx.shadow(need_cython=True)
     import numpy
@@ -345,6 +451,20 @@ def search(ctx, hints):
             if len(samples) < 3:
                 samples.append({"entry": e.name, "history": "fit(A%d); observe; fit(A%d); observe vs fresh" % variants[:2],
                                 "fitted_attributes": sorted(fitted_state(est))})
+        # the same history with a FAILING fit (invalid data) before each fit
+        for kind in (("nan-y", "mismatch") if not ctx.thorough else ("nan-y", "mismatch", "nan", "short")):
+            seed, dseed = ctx.rng.randrange(1 << 30), ctx.rng.randrange(1 << 30)
+            inp_f = {"entry": e.name, "kind": "refit", "variants": [0, 1], "seed": seed, "dseed": dseed, "failing": kind}
+            try:
+                est, fresh, last, ref = history(e, (0, 1), seed, dseed, failing=kind)
+            except Exception as ex:  # noqa: BLE001
+                add(failed_history_raises(e, seed, dseed, kind, ex), inp_f)
+                continue
+            evals += 1
+            nontriv.add((e.name, "after-failed-fit", kind))
+            if e.seeded:
+                add(compare(e, est, fresh, last, ref, "refit-after-failed-fit"),
+                    {"entry": e.name, "kind": "refit", "variants": [0, 1], "seed": seed, "dseed": dseed, "failing": kind})
         # two models built from the same component objects
         if e.cls not in SHARES_BY_DESIGN:
             seed = ctx.rng.randrange(1 << 30)
@@ -357,6 +477,16 @@ def search(ctx, hints):
                 evals += 1
                 nontriv.add((e.name, "shared-components"))
                 add(bad, {"entry": e.name, "kind": "shared-components", "variants": [0, 1], "seed": seed, "dseed": dseed})
+        # using the model does not change it
+        seed, dseed = ctx.rng.randrange(1 << 30), ctx.rng.randrange(1 << 30)
+        try:
+            for variant in (0, 1):
+                bad = state_stability(e, seed, dseed, variant)
+                evals += 1
+                nontriv.add((e.name, "state-stability", variant))
+                add(bad, {"entry": e.name, "kind": "state-stability", "variants": [variant], "seed": seed, "dseed": dseed})
+        except Exception:  # noqa: BLE001
+            pass
         # two fits under the same global seed agree exactly
         seed = ctx.rng.randrange(1 << 30)
         dseed = ctx.rng.randrange(1 << 30)
@@ -377,6 +507,41 @@ def search(ctx, hints):
             nontriv.add((e.name, "int-random_state"))
             add(bad, {"entry": e.name, "kind": "seed-independence", "variants": [0], "seed": s1, "seed2": s2,
                       "dseed": dseed})
+    # the same histories under configurations read from the current source (`_guided`): values each hyper-parameter
+    # is compared with, one and two at a time.  A configuration whose fit raises is skipped (C02's business).
+    expl = explain(ctx)
+    rejected = {x["class"] for x in expl if isinstance(x, dict)}
+    for e in _menu.build_menu():
+        if e.slow and not ctx.thorough and e.cls not in rejected:
+            continue
+        ovs = [o for o in _guided.overrides(ctx.repo, e.cls, pairs=True, cap=40 if e.cls in rejected else ctx.pick(8, 40))
+               if not any(k in OPT_OUT_PARAMS for k in o)]
+        for ov in ovs:
+            d = derived(e, ov)
+            seed, dseed = ctx.rng.randrange(1 << 30), ctx.rng.randrange(1 << 30)
+            evals += 1
+            try:
+                est, fresh, last, ref = history(d, (0, 1), seed, dseed)
+            except Exception:  # noqa: BLE001
+                continue
+            nontriv.add((e.name, "guided", tuple(sorted(ov.items(), key=str))))
+            if e.seeded:
+                add(compare(d, est, fresh, last, ref, "refit"),
+                    {"entry": e.name, "override": ov, "kind": "refit", "variants": [0, 1], "seed": seed, "dseed": dseed})
+            try:
+                for variant in (0, 1):
+                    add(state_stability(d, seed, dseed, variant), {"entry": e.name, "override": ov, "kind": "state-stability",
+                                                                   "variants": [variant], "seed": seed, "dseed": dseed})
+            except Exception:  # noqa: BLE001
+                pass
+            if e.name in SEEDED:
+                s1, s2 = ctx.rng.randrange(1 << 30), ctx.rng.randrange(1 << 30)
+                try:
+                    bad = seed_independence(d, s1, s2, dseed)
+                except Exception:  # noqa: BLE001
+                    continue
+                add(bad, {"entry": e.name, "override": ov, "kind": "seed-independence", "variants": [0], "seed": s1,
+                          "seed2": s2, "dseed": dseed})
     # histories with a change of hyper-parameters between two fits (pairs of menu entries of the same class)
     menu = [m for m in _menu.build_menu() if not m.slow or ctx.thorough]
     for e1 in menu:
@@ -396,7 +561,7 @@ def search(ctx, hints):
             add(compare(e2, est, fresh, last, ref, "reconfigured", state=False),
                 {"entry": e1.name, "entry2": e2.name, "kind": "reconfigured", "variants": [0, 1], "seed": seed, "dseed": dseed})
     return list(vs.values()), {"evaluations": evals, "distinct_nontrivial": len(nontriv), "samples": samples,
-                               "explanations_of_rejected_skeletons": explain(ctx)}
+                               "explanations_of_rejected_skeletons": expl}
 
 
 def seed_independence(e, s1, s2, dseed):
@@ -433,7 +598,11 @@ def replay(ctx, item):
     warnings.filterwarnings("ignore")
     inp = item["input"]
     e = {m.name: m for m in _menu.build_menu()}[inp["entry"]]
-    if inp["kind"] == "seed-independence":
+    if inp.get("override"):
+        e = derived(e, inp["override"])
+    if inp["kind"] == "state-stability":
+        bad = state_stability(e, inp["seed"], inp["dseed"], inp["variants"][0])
+    elif inp["kind"] == "seed-independence":
         bad = seed_independence(e, inp["seed"], inp["seed2"], inp["dseed"])
     elif inp["kind"] == "shared-components":
         bad, _ = shared_components(e, inp["seed"], inp["dseed"])
@@ -442,6 +611,13 @@ def replay(ctx, item):
         est, fresh, last, ref = reconfigured(e, e2, inp["seed"], inp["dseed"])
         bad = compare(e2, est, fresh, last, ref, "reconfigured", state=False)
     else:
-        est, fresh, last, ref = history(e, tuple(inp["variants"]), inp["seed"], inp["dseed"])
-        bad = compare(e, est, fresh, last, ref, "refit" if inp["kind"] == "refit" else "same-global-seed")
+        try:
+            est, fresh, last, ref = history(e, tuple(inp["variants"]), inp["seed"], inp["dseed"], failing=inp.get("failing"))
+        except Exception as ex:  # noqa: BLE001
+            if not inp.get("failing"):
+                raise
+            return [Violation(k, w, inp, o, r)
+                    for k, w, o, r in failed_history_raises(e, inp["seed"], inp["dseed"], inp["failing"], ex)]
+        bad = compare(e, est, fresh, last, ref, ("refit-after-failed-fit" if inp.get("failing") else "refit")
+                      if inp["kind"] == "refit" else "same-global-seed")
     return [Violation(k, w, inp, o, r) for k, w, o, r in bad]
